@@ -12,13 +12,13 @@
    (sender, started or queued operation state, wrapper, temporary).  Groups are numbered in
    request order (request i belongs to a group >= the group of request j whenever i >= j).
 
-   NOT proven here (see notes/design/C04.md; checked on every run by the lock-step replay and
-   by the monitors of tools/props/c04.py only): rw_progress (stuck => every started access whose
-   predecessors are released has been granted) and [bad = false] under the sequential-use
-   contract of the mutex object (unconditionally it is refuted below); both need an invariant
-   over the thread-local work lists. *)
+   Client contract ([contract_from], Proofs/RwMutexWorkProofs.v; async_rw_mutex.hpp: "Retrieving senders from the
+   mutex is not thread-safe"): a request or the destruction of the mutex is not issued while a thread is still
+   inside the first request.  Under it the ownership guards of the model never fire (C04_rw_no_bad_guarded) and a
+   started access is never stranded (C04_rw_progress); unconditionally [bad = false] is refuted below. *)
 From Coq Require Import List Arith Sorted.
-From Pika Require Import Base.Conc Model.RwMutex Proofs.RwMutexProofs Proofs.RwMutexLogProofs Proofs.RwMutexReqProofs Proofs.RwMutexQueueProofs Proofs.RwMutexDoneProofs.
+From Pika Require Import Base.Conc Model.RwMutex Proofs.RwMutexProofs Proofs.RwMutexLogProofs Proofs.RwMutexReqProofs Proofs.RwMutexQueueProofs Proofs.RwMutexDoneProofs
+  Proofs.RwMutexWorkProofs.
 Import ListNotations.
 
 (* wrappers of two different groups never exist at the same time: a read-write access never
@@ -157,28 +157,19 @@ Print Assumptions C04_rw_value_outlives.
    sentinel exchange): an operation state that was pushed is in the list of its group, which the
    exchange in done() takes as a whole (every element gets its continuation, WDx); once the
    head is the sentinel no operation state of that group is waiting in the queue (a later start
-   sees the sentinel and is granted inline).  Full statement, NOT proven (needs an invariant over
-   the thread-local work lists: every transient owner state TStarting/TGranting/TAuto/TTemp/TDone t,
-   every group in destructor phase 1/2 and every pending done() is backed by a work item of its
-   thread):
-     forall sched, (forall t, snd (rw_run sched) t = []) -> forall e, tstarted (tok g e) = true ->
-       (forall e', alive (tst (tok g e')) = true -> tgrp (tok g e) <= tgrp (tok g e')) ->
-       In e (grant_toks (elog g)) *)
+   sees the sentinel and is granted inline).  The liveness-as-safety half is C04_rw_progress below. *)
 Theorem C04_rw_progress_partial : forall sched, let g := fst (rw_run sched) in
   (forall e, tst (tok g e) = TQueued -> exists l, head (grp g (tgrp (tok g e))) = HList l /\ In e l) /\
   (forall e, head (grp g (tgrp (tok g e))) = HSent -> tst (tok g e) <> TQueued).
 Proof. exact rw_no_lost_push. Qed.
 Print Assumptions C04_rw_progress_partial.
 
-(* first layer of the work-list invariant needed for rw_progress / the guarded [bad = false] (both still
-   NOT proven, see notes/design/C04.md): done() is issued at most once per shared state and in destructor
+(* shared-state layer of the work-list invariant: done() is issued at most once per shared state and in destructor
    order.  In every reachable state (all schedules, no contract assumed)
    - a group has at most one "local taken from next_state" (TDone token): its predecessor's destructor took
      next_state once;
    - such a local for group S p exists only after the destructor body of p has finished (phase 3, count 0);
-   - the sentinel of a successor group S p is set (done() ran) only after the destructor body of p finished.
-   Together with C04_rw_queue_wellformed this is what makes the head test of WDx ("second done()") and the
-   creation of the WDx item sound; what is missing for [bad = false] is the per-thread list predicate. *)
+   - the sentinel of a successor group S p is set (done() ran) only after the destructor body of p finished. *)
 Theorem C04_rw_done_once : forall sched, let g := fst (rw_run sched) in
   (forall e e' t t', tst (tok g e) = TDone t -> tst (tok g e') = TDone t' -> tgrp (tok g e) = tgrp (tok g e') -> e = e') /\
   (forall e t, tst (tok g e) = TDone t -> exists p, tgrp (tok g e) = S p /\ gphase (grp g p) = 3 /\ refs (grp g p) = 0) /\
@@ -197,6 +188,93 @@ Print Assumptions C04_rw_done_once.
 Theorem C04_rw_no_bad_refuted : exists sched, bad (fst (rw_run sched)) = true.
 Proof. exact rw_no_bad_refuted. Qed.
 Print Assumptions C04_rw_no_bad_refuted.
+
+(* ---- the work-list layer (Proofs/RwMutexWorkProofs.v) ----
+   [contract_from c sched] is evaluated along the run: whenever the scheduled thread is idle (its work list is
+   empty, so it executes the command) and the command is a request (CReq) or the destruction of the mutex
+   (CDestroy), no thread has a pending [WDx 0 None] (the done() of the first shared state, issued inside the first
+   read()/readwrite() call): no mutex member function is entered while a thread is still inside the first one. *)
+
+(* rw_no_bad_guarded: on every contract-respecting schedule the ownership guards of the model never fire — no
+   work item ever finds its token / group in a state other than the one its own thread left it in, no reference
+   count underflows, no shared state is touched after its count reached 0, done() never runs twice.  Hence the
+   theorems above are not vacuous on such clients (the guards are dead code there). *)
+Theorem C04_rw_no_bad_guarded : forall sched,
+  contract_from (rw_init, rw_locals) sched -> bad (fst (rw_run sched)) = false.
+Proof. exact rw_no_bad_guarded. Qed.
+Print Assumptions C04_rw_no_bad_guarded.
+
+(* the discipline of the lock-step harness (harness/c04_rw.cpp, variable `rq`: a request / destroy command is
+   handed to an idle worker only when the worker that got the previous request / destroy command is idle again)
+   implies the contract, for every schedule *)
+Theorem C04_rw_harness_contract : forall sched,
+  harness_from None (rw_init, rw_locals) sched = true -> contract_from (rw_init, rw_locals) sched.
+Proof. exact rw_harness_contract. Qed.
+Print Assumptions C04_rw_harness_contract.
+
+(* rw_progress (liveness as safety; complements C04_rw_progress_partial): in every state reached by a
+   contract-respecting schedule in which every thread is idle (all work lists empty: nothing is in flight),
+   every access that was started and whose predecessor shared states have all been released (use count 0) has
+   been granted.  So a started access is never stranded between the CAS-push and the sentinel exchange: the
+   release that brings the predecessor's count to 0 runs its destructor to the end, which issues done() on the
+   successor, which grants everything that was pushed; a start that comes later sees the sentinel. *)
+Theorem C04_rw_progress : forall sched, contract_from (rw_init, rw_locals) sched ->
+  let g := fst (rw_run sched) in let ls := snd (rw_run sched) in
+  (forall t, ls t = []) ->
+  forall e, tstarted (tok g e) = true -> (forall j, j < tgrp (tok g e) -> refs (grp g j) = 0) ->
+  In e (grant_toks (elog g)).
+Proof. exact rw_progress. Qed.
+Print Assumptions C04_rw_progress.
+
+(* the same with the hypothesis stated on references instead of counts: no live reference of any kind (sender,
+   operation state, wrapper, temporary) to an earlier shared state exists — every earlier access was released or
+   dropped.  (With every thread idle this implies that the earlier shared states have count 0: each destructor ran to
+   its end and unlinked its successor.) *)
+Theorem C04_rw_progress_refs : forall sched, contract_from (rw_init, rw_locals) sched ->
+  let g := fst (rw_run sched) in let ls := snd (rw_run sched) in
+  (forall t, ls t = []) ->
+  forall e, tstarted (tok g e) = true ->
+  (forall e', alive (tst (tok g e')) = true -> tgrp (tok g e) <= tgrp (tok g e')) ->
+  In e (grant_toks (elog g)).
+Proof. exact rw_progress_refs. Qed.
+Print Assumptions C04_rw_progress_refs.
+
+(* the converse work-list invariant behind it, in every state reached by a contract-respecting schedule: every
+   operation state inside start() / with a decided grant has its item on the owning thread's list; every shared
+   state whose destructor is running has its WDn item on the list of the thread that brought the count to 0; a
+   shared state whose predecessor's destructor has finished has the sentinel set or its done() pending; the first
+   shared state has the sentinel set or its done() pending *)
+Theorem C04_rw_worklist_complete : forall sched, contract_from (rw_init, rw_locals) sched ->
+  let g := fst (rw_run sched) in let ls := snd (rw_run sched) in
+  (forall e t, tst (tok g e) = TStarting t -> In (WLoad e) (ls t) \/ exists nx, In (WCas e nx) (ls t)) /\
+  (forall e t, tst (tok g e) = TGranting t -> In (WGrant e) (ls t)) /\
+  (forall k, k < ngrp g -> 1 <= gphase (grp g k) -> gphase (grp g k) <> 3 -> In (WDn k) (ls (gown (grp g k)))) /\
+  (forall p, S p < ngrp g -> gphase (grp g p) = 3 ->
+     head (grp g (S p)) = HSent \/ exists t e, In (WDx (S p) (Some e)) (ls t)) /\
+  (1 <= ngrp g -> head (grp g 0) = HSent \/ exists t, In (WDx 0 None) (ls t)).
+Proof. exact rw_worklist_complete. Qed.
+Print Assumptions C04_rw_worklist_complete.
+
+(* non-vacuity of the contract: (1) two schedules recorded by the lock-step harness on the real header
+   (`c04_rw 1 3 0 12`, cases 0 and 2; [hflat] expands the controller entries exactly as ocaml/drv_c04.ml does)
+   follow the harness discipline, hence the contract, hence [bad = false]; case 0 ends with every thread idle
+   and all four started accesses granted; (2) the schedule of C04_rw_example does too; (3) the refutation witness
+   of the unconditional statement violates the contract *)
+Example C04_rw_contract_harness_example :
+  let s0 := hflat 1000 (rw_init, rw_locals) [] harness_case_1_0 in
+  let s2 := hflat 1000 (rw_init, rw_locals) [] harness_case_1_2 in
+  (harness_from None (rw_init, rw_locals) s0 = true /\ contract_from (rw_init, rw_locals) s0 /\
+   bad (fst (rw_run s0)) = false /\ length s0 = 36 /\ (forall t, t < 4 -> snd (rw_run s0) t = []) /\
+   grant_toks (elog (fst (rw_run s0))) = [3; 1; 4; 0]) /\
+  (harness_from None (rw_init, rw_locals) s2 = true /\ contract_from (rw_init, rw_locals) s2 /\
+   bad (fst (rw_run s2)) = false).
+Proof. exact harness_cases_contract. Qed.
+Example C04_rw_contract_example :
+  harness_from None (rw_init, rw_locals) example_sched = true /\
+  contract_from (rw_init, rw_locals) example_sched /\ bad (fst (rw_run example_sched)) = false.
+Proof. exact example_sched_contract. Qed.
+Example C04_rw_contract_excludes_witness : ~ contract_from (rw_init, rw_locals) bad_witness.
+Proof. exact bad_witness_breaks_contract. Qed.
 
 (* non-vacuity: W, R, R requested; the writer is granted inline; both readers queue behind it
    (one CAS fails spuriously first); releasing the writer runs its destructor on thread 1, whose
